@@ -72,7 +72,12 @@ def sched_check(level, assumptions, budget=None, shards=None, race_pass=None):
         nsh = (shards or {}).get(tier, V.NCPU)
         # per-worker wall-clock budget (graceful: exhaustive=false when hit).  Thorough: the whole check is planned
         # for about 40 minutes whatever the number of scenarios.
-        njobs = len(names) * nsh
+        # thorough adds the fine-mode sweep: every scenario that is not fine by itself is explored once more, at its quick
+        # bounds, with the locks and atomics INSIDE the baselibrary primitives (flag, queue, maps, pools, routines,
+        # contexts) as scheduling points, i.e. without the assumption that those primitives are atomic at their call
+        # boundary. Budgeted: iterative deviation bounding reports the number of complete layers.
+        fine = tier == "thorough"
+        njobs = len(names) * nsh * (2 if fine else 1)
         per_job = budget[tier]
         if tier == "thorough":
             per_job = max(300, min(budget[tier], 2400 * V.NCPU // max(1, njobs)))
@@ -81,6 +86,15 @@ def sched_check(level, assumptions, budget=None, shards=None, race_pass=None):
             for i in range(nsh):
                 jobs.append({"cmd": [binary, "explore", "-prop", prop, "-scenario", n, "-tier", tier, "-shard", str(i), "-nshards", str(nsh),
                                      "-seed", str(seed), "-budget", str(per_job)], "name": "%s_%d" % (n, i)})
+        if fine:
+            for n in names:
+                r = subprocess.run([binary, "selftest", "-fine", "-scenario", n], capture_output=True, text=True, timeout=600)
+                if r.returncode != 0:
+                    V.log(r.stdout[-3000:] + r.stderr[-3000:])
+                    raise V.HarnessError("determinism self-test (fine mode) failed for scenario " + n)
+                for i in range(nsh):
+                    jobs.append({"cmd": [binary, "explore", "-fine", "-prop", prop, "-scenario", n, "-tier", "quick", "-shard", str(i), "-nshards", str(nsh),
+                                         "-seed", str(seed), "-budget", str(per_job)], "name": "%s_fine_%d" % (n, i)})
         results, failures = V.run_jobs(jobs, os.path.join(V.SCRATCH, "work", prop), per_job * 3 + 120)
         merged = V.merge(results)
         extra = None
